@@ -242,6 +242,7 @@ def check(spec):
     cur = ddf
     diverged = ""  # first step after which the reported divisions differ from those of the optimized expression
     diverged_on = ""  # ... and the step before it (what that step was applied to)
+    concat0_before = False  # ... and whether an axis-0 concat lies below the diverging step
     with dask.config.set({"dataframe.shuffle.method": "tasks"}), C.quiet():
         for step in spec["steps"]:
             opname = step["op"] + ("-" + step["mode"] if "mode" in step else "") + ("-" + step["kind"] if "kind" in step else "")
@@ -266,6 +267,7 @@ def check(spec):
                 if lowered is None or _divs_key(lowered) != _divs_key(reported):
                     diverged = opname
                     diverged_on = applied[-2] if len(applied) > 1 else "source"
+                    concat0_before = "concat0" in applied[:-1]
             # the cheap clause is judged after every step so that the signature names the step that broke it
             if C.divisions_known(reported):
                 # sig: the step, and whether npartitions over- or under-states the division vector
@@ -277,7 +279,7 @@ def check(spec):
         what = f"source divisions {short(ddf.divisions, 100)} -> {' -> '.join(applied)}"
         # sig: the last step, and (if any) the first step at which optimize() changes the reported divisions - the
         # common root of most failures (the frame reports divisions that the executed expression does not have)
-        sig = dict(op=applied[-1], prev=applied[-2] if len(applied) > 1 else "source", divisions_differ_after_optimize=diverged, diverged_on=diverged_on)
+        sig = dict(op=applied[-1], prev=applied[-2] if len(applied) > 1 else "source", divisions_differ_after_optimize=diverged, diverged_on=diverged_on, concat0_before_divergence=concat0_before)
         known = C.divisions_known(cur.divisions)
         if not known:
             # C41 speaks about frames that report known divisions ((nan, nan) of an empty set_index counts as unknown)
